@@ -49,6 +49,8 @@ def h_timestep(ctx, cfg):
     soil, base = build_profile(["SandyLoam"] * n, [0.1, 0.2], water_table=cfg["wt"])
     prof = prof_for(ctx, base)
     crop = season_crop(cfg["crop"])
+    if cfg["pre_first"]:
+        crop.Aer = 15.0; crop.Zmin = 0.2        # (Barley-like values) the pre-season filler crop gets Aer=5, Zmin=0.3: the season crop must keep its own
     crop0 = copy.copy(crop)
     ps = make_params(ctx, soil, base, prof, crop, cfg)
     ins = cfg["in_season"]
